@@ -57,6 +57,12 @@ CLAIMED = {
         "Machine-checked Lean 4 theorems over an executable model of reading a tree from disk (FsNode data type; the stack-based two-pass walk transcribed statement by statement and proved equal to a structural reader for every filter and limit): any permutation of any directory's listing at any depth gives the same (kind, id, mode) at every path; regular files are blobs with 100755 iff an execute bit, symlinks are 120000 blobs of their text and never followed, special files are empty contents, every directory incl. empty ones is a 40000 tree entry; trailing slashes are normalised away; the node at a nested path is the reading of that sub-tree; for trees without special files whose executables are owner-executable, ignoring empty directories gives git's `add -A && write-tree` id written as a separate specification. The correspondence materialises generated trees (non-UTF-8 names, names colliding in git order, sizes around the read block, fifos, dangling links) in a scratch area with PRNG-shuffled os.scandir and compares every node with the model, with ids computed independently from git's rules, with the command line, and with real git.",
         NOTE + " OS semantics (lstat/readlink/scandir) are trusted; the model receives the tree as data.",
     ),
+    "C11": (
+        "§6 C11",
+        "Lean 4 theorems (frozen-mapping eq/hash order-free, eq implies hash-eq from the regenerated attrs eq flags, copying constructors isolate the object under any later mutation sequence, aliasing ones do not) + exhaustive run-time tie class x field x channel",
+        "Machine-checked Lean 4 theorems over a model of value semantics: frozen mappings with the same items are equal and hash equally whatever the insertion order; attrs-generated equality implies equal hashes because both range over the same eq fields (flags regenerated from the live classes); in a store model of object identity, an object built by a COPYING constructor observes the same items after any sequence of mutations of containers the caller can reach, whereas an aliasing constructor does not. PARTIAL: 'assigning or deleting an attribute or item raises' is a fact about CPython/attrs that no model of ours can exhibit; it is carried by the run-time tie, which is exhaustive in the finite dimensions: every class (18 model classes, 3 SWHID classes, ImmutableDict) x every attrs field x setattr/delattr/mutating methods, and later mutation of every container passed to a constructor or inside a from_dict argument (top level and nested), observing dictionary form, id, recomputed hash, equality and hash before and after.",
+        NOTE + " CPython object protocol and attrs are trusted; hash coherence is claimed where hash() is defined.",
+    ),
     "C13": (
         "§6 C13",
         "Lean 4 theorems: two-pass filtering = reading the physically pruned tree (named, empty, composed; any emptiness-only filter); export closed/unique/checked without assuming an injective hash; size limit changes status only + correspondence and pruned-copy oracle on materialised trees (glob patterns by oracle only)",
